@@ -32,9 +32,9 @@ def _run_chunk(args):
             p = subprocess.run([binp, "seq", plans_path, base, str(skip)], stdout=subprocess.PIPE,
                                stderr=subprocess.PIPE, timeout=timeout, text=True, errors="replace")
             out, rc, to = p.stdout, p.returncode, False
-        except subprocess.TimeoutExpired as e:
-            out = e.stdout.decode("utf-8", "replace") if isinstance(e.stdout, bytes) else (e.stdout or "")
-            rc, to = -9, True
+        except subprocess.TimeoutExpired:
+            raise core.ToolError("fsops chunk did not finish in %ds (machine overloaded?)" % timeout)
+        to = rc == 43        # the driver's own per-plan watchdog fired: the plan that was running hangs
         cur = None
         done = False
         for line in out.splitlines():
@@ -61,7 +61,7 @@ def _run_chunk(args):
     return events, incidents
 
 
-def run_plans(chk, bindir, inits, plans, tag, nproc=NPROC, timeout=600):
+def run_plans(chk, bindir, inits, plans, tag, nproc=NPROC, timeout=3000):
     """plans: list of dicts {init|tree, ops}. Returns (runs, incidents): runs[k] = list of events
     of plan k (reset + ops) or None if the process died in it."""
     binp = os.path.join(bindir, "fsops")
@@ -257,7 +257,8 @@ def gen_sequences(chk, mode, depth, opset, npicks=0, workers=8):
                                                                         for _ in range(rng.randint(2, depth))]}
                                   for _ in range(npicks)])
         env["PICKS"] = ppath
-    res = core.run_tlc("FsTreeGen.tla", cfg, workers=workers, timeout=1500, xmx="6g", env=env)
+    res = core.run_tlc("FsTreeGen.tla", cfg, workers=workers, timeout=1500, xmx="6g", env=env,
+                       metadir=os.path.join(core.WORK, "tlc-meta", "FsTreeGen-%d-%s-%d" % (os.getpid(), mode, depth)))
     core.tlc_must_pass(res, "FsTreeGen " + mode)
     inits = res.printed("I")[0]["trees"]
     plans = res.printed("P")
@@ -272,7 +273,8 @@ def cda_vectors(chk, algo, maxlen, bufmax, check_invariants, workers=8):
     with open(cfg, "w") as f:
         f.write('CONSTANTS\n  Alpha = {"a", "b", "/"}\n  MaxLen = %d\n  BufMax = %d\n  Algo = "%s"\nINIT Init\nNEXT Next\n' % (maxlen, bufmax, algo))
         f.write("INVARIANTS Emit %s\nCHECK_DEADLOCK FALSE\n" % ("PostCondition NeverPanics Untouched" if check_invariants else ""))
-    res = core.run_tlc("FsCda.tla", cfg, workers=workers, timeout=1500, xmx="6g")
+    res = core.run_tlc("FsCda.tla", cfg, workers=workers, timeout=1500, xmx="6g",
+                       metadir=os.path.join(core.WORK, "tlc-meta", "FsCda-%d-%s" % (os.getpid(), algo)))
     return res, res.printed("V")
 
 
@@ -479,9 +481,18 @@ def run(tier):
     bindir = core.cargo_build(bins=["fsops"])
     nontrivial = set()
 
-    # ---- 1. create_dir_all: TLC model-checks the transcription, then conformance on the real code
+    # independent TLC jobs run concurrently (4 workers each)
+    pool = concurrent.futures.ThreadPoolExecutor(max_workers=4)
+    nsim, depth = (1500, 4) if tier == "quick" else (20000, 6)
     maxlen, bufmax = (5, 4) if tier == "quick" else (7, 6)
-    res, vecs = cda_vectors(chk, "fixed", maxlen, bufmax, True)
+    fut_cda = pool.submit(cda_vectors, chk, "fixed", maxlen, bufmax, True, 4)
+    fut_rd = pool.submit(core.run_tlc, "FsReadDir.tla", "FsReadDir.cfg", workers=2, timeout=900,
+                         metadir=os.path.join(core.WORK, "tlc-meta", "FsReadDir-%d" % os.getpid()))
+    fut_enum = pool.submit(gen_sequences, chk, "enum", 1, "all", 0, 4)
+    fut_picks = pool.submit(gen_sequences, chk, "picks", depth, "all", nsim, 4)
+
+    # ---- 1. create_dir_all: TLC model-checks the transcription, then conformance on the real code
+    res, vecs = fut_cda.result()
     algo = "fixed"
     model_ok = res.ok
     if res.ok:
@@ -524,20 +535,19 @@ def run(tier):
     chk.sample({"create_dir_all_vector": "".join(vecs[len(vecs) // 2]["raw"]), "predicted": vecs[len(vecs) // 2]["res"]})
 
     # ---- 1b. the ReadDir window logic (getdents into 512 bytes), exhaustively for <= 6 entries of 4 name lengths
-    res = core.run_tlc("FsReadDir.tla", "FsReadDir.cfg", workers=4, timeout=900)
+    res = fut_rd.result()
     core.tlc_must_pass(res, "FsReadDir")
     chk.add_tlc(res)
     chk.extra["readdir_window_model_states"] = res.distinct
 
     # ---- 2. operation sequences generated by TLC
-    inits, plans1, _ = gen_sequences(chk, "enum", 1, "all")
+    inits, plans1, _ = fut_enum.result()
     if tier == "quick":
         # every (operation, path spelling, prior state) once is 22k runs; quick keeps every operation on every
         # initial tree and every spelling, but thins the two-path operations
         keep = [p for k, p in enumerate(plans1) if p["ops"][0]["op"] not in ("copy", "rename") or k % 3 == chk.seed % 3]
         plans1 = keep
-    nsim, depth = (1500, 4) if tier == "quick" else (20000, 6)
-    _, plans_s, _ = gen_sequences(chk, "picks", depth, "all", npicks=nsim)
+    _, plans_s, _ = fut_picks.result()
     plans2 = []
     if tier == "thorough":
         _, plans2, _ = gen_sequences(chk, "enum", 2, "core")
@@ -603,3 +613,42 @@ def replay(path):
         print(json.dumps(ev)[:600])
     print("replayed: incidents=%s rejected steps=%s" % (inc, [(j, ref) for _, j, _, _, ref in bad]))
     return 1 if bad or inc else 0
+
+
+def selftest():
+    """Anti-vacuity: a recorded run is accepted; the same run with one field corrupted is rejected."""
+    import copy
+    chk = core.Check("C14", "selftest", "model_checking")
+    bindir = core.cargo_build(bins=["fsops"])
+    plan = {"tree": [D([]), D(["a"]), F(["a", "f"], small([1, 2, 3]))],
+            "ops": [op("write", ["a", "g"], c=small([7, 8])), op("copy", ["a", "g"], ["a", "f"]), op("create_dir_all", ["x", "y", ""]),
+                    op("read_dir", ["a"]), op("remove_dir_all", ["a"])]}
+    runs, inc = run_plans(chk, bindir, [], [plan], "selftest", nproc=1)
+    good = runs[0]
+    variants = {"unchanged": good}
+    v = copy.deepcopy(good)
+    v[2]["tree"] = [e for e in v[2]["tree"] if e["p"] != ["a", "g"]] + [{"p": ["a", "g"], "k": "f", "c": small([7, 8, 9])}]
+    variants["content_of_written_file_changed"] = v
+    v = copy.deepcopy(good)
+    v[1]["res"]["class"] = "err"
+    variants["ok_reported_as_err"] = v
+    v = copy.deepcopy(good)
+    v[3]["tree"] = [e for e in v[3]["tree"] if e["p"] != ["x", "y"]]
+    variants["created_leaf_missing_from_dump"] = v
+    v = copy.deepcopy(good)
+    v[4]["res"]["v"] = [x for x in v[4]["res"]["v"] if x[0] != "g"]
+    variants["listing_lost_an_entry"] = v
+    v = copy.deepcopy(good)
+    v[5]["tree"] = v[4]["tree"]
+    variants["remove_dir_all_left_the_tree"] = v
+    ok = True
+    for name, run in variants.items():
+        for k, e in enumerate(run):
+            e["id"] = 0
+        bad = judge(chk, [run], "selftest_" + name, par=1)
+        verdict = "accepted" if not bad else "rejected at step %s" % [b[1] for b in bad]
+        expect = "accepted" if name == "unchanged" else "rejected"
+        print("selftest %-36s %s" % (name, verdict))
+        ok &= verdict.startswith(expect)
+    print("C14 selftest", "OK" if ok else "FAILED")
+    return 0 if ok else 2
